@@ -25,7 +25,7 @@ package kernel
 //@         (forall i int :: {old(chain.CosiAggregators[k]).Snapshot.Transactions[i]} 0 <= i && i < len(old(chain.CosiAggregators[k]).Snapshot.Transactions) &&
 //@             !InList32(owned, old(chain.CosiAggregators[k]).Snapshot.Transactions[i]) && Eligible(chain.node.persistStore, old(chain.CosiAggregators[k]).Snapshot.Transactions[i]) ==>
 //@             Queued(chain.node.persistStore, old(chain.CosiAggregators[k]).Snapshot.Transactions[i])))
-//@   ensures [owned-not-requeued] forall h crypto.Hash :: {Queued(chain.node.persistStore, h)} Queued(chain.node.persistStore, h) != old(Queued(chain.node.persistStore, h)) ==>
+//@   ensures [owned-not-requeued] forall h crypto.Hash :: {QueuedId(chain.node.persistStore, kvval(h))} Queued(chain.node.persistStore, h) != old(Queued(chain.node.persistStore, h)) ==>
 //@       !InList32(owned, h) && !Finalized(chain.node.persistStore, h)
 //@   ensures [monotone] forall id mathint :: {QueuedId(chain.node.persistStore, id)} QueuedId(chain.node.persistStore, id) != old(QueuedId(chain.node.persistStore, id)) ==> QueuedId(chain.node.persistStore, id) == 1
 //@   ensures [errors-grow] StoreErrors(chain.node.persistStore) >= old(StoreErrors(chain.node.persistStore))
